@@ -259,7 +259,7 @@ def explore(ctx, factor, bs):
     fn_cases(ctx)
     for case in directed_cases(rng):
         one_case(ctx, case, tag="directed")
-    n = ctx.pick(2000, 60000) * min(factor, 3)
+    n = ctx.pick(2000, 45000) * min(factor, 3)
     for i in range(n):
         directed = {}
         if i % 10 == 0:
@@ -269,6 +269,11 @@ def explore(ctx, factor, bs):
     inside = ctx.dist.get("fragment:inside", 0)
     outside = ctx.dist.get("fragment:outside", 0)
     ctx.notes["fragment_share"] = round(inside / max(1, inside + outside), 4)
+    ctx.notes["theorem_guards"] = {
+        "wf_false_inputs": ctx.dist.get("guard:wf-false", 0),
+        "choicesLabeled_false_inputs (F6 shape, open finding)": ctx.dist.get("guard:choicesLabeled-false", 0),
+        "choicesLabeled_true_inputs": ctx.dist.get("guard:choicesLabeled-true", 0),
+    }
 
 
 def replay(ctx, payload, bs):
